@@ -242,18 +242,46 @@ fn part_b(acc: &mut Acc, tier: Tier) -> usize {
                     };
                     // a request that also carries a sub-resource flag (a literal query item of some other operation's URI) which is
                     // not part of the denoted operation's own URI is not a well-formed request for it: what it denotes is not defined
-                    if let Some(op) = want {
-                        let own: Vec<&str> = rs.iter().find(|r| r.name == op).map(|r| r.query.iter().map(|q| q.0).collect()).unwrap_or_default();
-                        let literal_of_others = |n: &str| OP_MODELS.iter().any(|m| m.literal_query().iter().any(|(l, _)| *l == n));
-                        if query.iter().any(|(n, _)| literal_of_others(n) && !own.contains(&n.as_str())) {
-                            a.outcome("carries a foreign sub-resource flag (not judged)");
-                            continue;
-                        }
-                    }
                     let target = if qs.is_empty() { path.to_owned() } else { format!("{path}?{qs}") };
                     let mut req = Req::new(method, &target).header("host", host);
                     for h in &headers {
                         req = req.header(h, if h == "x-amz-copy-source" { "src-bkt/k" } else { "t" });
+                    }
+                    if let Some(op) = want {
+                        let own: Vec<&str> = rs.iter().find(|r| r.name == op).map(|r| r.query.iter().map(|q| q.0).collect()).unwrap_or_default();
+                        let literal_of_others = |n: &str| OP_MODELS.iter().any(|m| m.literal_query().iter().any(|(l, _)| *l == n));
+                        if query.iter().any(|(n, _)| literal_of_others(n) && !own.contains(&n.as_str())) {
+                            // One narrower class IS defined: the sub-resource flags present are exactly those of some operation Y of this
+                            // method and path (the request is addressed to Y's sub-resource) and Y does not match only because a required
+                            // member is missing. That is a malformed request for Y: it denotes nothing, and in particular it must not
+                            // fall through to the flag-less operation of the path (DELETE /b?analytics is not DeleteBucket).
+                            let flags_present: BTreeSet<&str> = query.iter().map(|(n, _)| n.as_str()).filter(|n| literal_of_others(n)).collect();
+                            let addressed: Vec<&Route> = rs
+                                .iter()
+                                .filter(|r| r.method == method && r.kind == kind)
+                                .filter(|r| {
+                                    let lits: BTreeSet<&str> = OP_MODELS.iter().find(|m| m.name == r.name).map(|m| m.literal_query().iter().map(|(l, _)| *l).collect()).unwrap_or_default();
+                                    // (a literal item that prescribes a value - list-type=2 - addresses Y only with that value)
+                                    let values_agree = OP_MODELS.iter().find(|m| m.name == r.name).is_some_and(|m| m.literal_query().iter().all(|(l, v)| v.is_none_or(|v| query.iter().any(|(qn, qv)| qn == l && qv == v))));
+                                    !lits.is_empty() && lits == flags_present && values_agree
+                                })
+                                .collect();
+                            if !addressed.is_empty() && addressed.iter().all(|r| r.name != op) {
+                                let (svc, log) = SvcCfg { host: parser.clone(), ..Default::default() }.build();
+                                let out = call(&svc, &req, body_one_frame(b""));
+                                let backend: Vec<&'static str> = backend_calls(&log).iter().map(|c| c.op).collect();
+                                a.nontrivial(fnv(id().as_bytes()));
+                                if backend.is_empty() {
+                                    a.outcome("sub-resource request with a missing required member: no backend invocation");
+                                } else {
+                                    a.outcome("sub-resource request with a missing required member: BACKEND INVOKED");
+                                    a.fail(&format!("C01/sub-resource-request-with-a-missing-member-invokes/{}", backend.join(",")), sub.len() as u64 * 1000 + si, id(), format!("the request is addressed to the sub-resource of {:?} but lacks a required member; it invoked {backend:?} and was answered {}", addressed.iter().map(|r| r.name).collect::<Vec<_>>(), out.verdict()), json!({"request": req.describe()}));
+                                }
+                                continue;
+                            }
+                            a.outcome("carries a foreign sub-resource flag (not judged)");
+                            continue;
+                        }
                     }
                     // the resolved route is observed at the access hook, which runs before the input is decoded
                     let cfg = SvcCfg { keys: Some(vec![(AK.into(), SK.into())]), access: AccessMode::Allow, host: parser.clone(), ..Default::default() };
